@@ -77,7 +77,8 @@ func CleanDomain(addr string) (string, error) {
 		return addr, err
 	}
 
-	uDomain, err := idna.ToUnicode(dns.LowerASCII(domain))
+	// See dns.ForLookup for the order of operations.
+	uDomain, err := idna.ToUnicode(dns.LowerASCII(norm.NFC.String(domain)))
 	if err != nil {
 		return addr, err
 	}
